@@ -174,6 +174,78 @@ func c10r1(c *core.Ctx) {
 			okSession = okSession && core.Dominated(g.site, hasSession)
 			okSub = okSub && core.Dominated(g.site, subscribed)
 		}
+		// completeness: "every other subscribed connection receives the event" — the only reasons to pass a connection over are the three
+		// above, a notification that could not be built, and the end of the list. A further condition (a rate limit, a "has this value
+		// already" filter, a connection-state test) drops events for subscribed connections.
+		for _, g := range guardsOf[w] {
+			if g.site.Parent() != f {
+				continue
+			}
+			var allowed func(v ssa.Value, b *ssa.BasicBlock, depth int) bool
+			allowed = func(v ssa.Value, b *ssa.BasicBlock, depth int) bool {
+				if depth > 4 {
+					return false
+				}
+				switch x := v.(type) {
+				case *ssa.Const:
+					return true
+				case *ssa.UnOp:
+					if x.Op == token.NOT {
+						return allowed(x.X, b, depth+1)
+					}
+				case *ssa.Phi:
+					for _, e := range x.Edges {
+						if !allowed(e, b, depth+1) {
+							return false
+						}
+					}
+					return true
+				case *ssa.Call:
+					return core.IsInvoke(x, qSession, "IsSubscribedTo")
+				case *ssa.Extract:
+					if _, isTA := x.Tuple.(*ssa.TypeAssert); isTA {
+						return true
+					}
+					if _, isNext := x.Tuple.(*ssa.Next); isNext {
+						return true
+					}
+				case *ssa.BinOp:
+					if x.Op == token.EQL || x.Op == token.NEQ {
+						for _, pr := range [][2]ssa.Value{{x.X, x.Y}, {x.Y, x.X}} {
+							if pr[0] == ssa.Value(pexcept) {
+								return true
+							}
+							if core.IsNilConst(pr[1]) {
+								if core.TypeIs(pr[0].Type(), "error") {
+									return true
+								}
+								if core.AnySource(pr[0], func(sv ssa.Value) bool {
+									call, ok := sv.(*ssa.Call)
+									return ok && core.IsInvoke(call, qContext, "GetSessionForConnection")
+								}) {
+									return true
+								}
+							}
+						}
+					}
+					if x.Op == token.LSS && (b.Comment == "rangeindex.loop" || b.Comment == "for.loop") {
+						return true
+					}
+				}
+				return false
+			}
+			var extra *ssa.If
+			for _, iff := range controlDepsAll(g.site.Block()) {
+				if !allowed(iff.Cond, iff.Block(), 0) {
+					extra = iff
+				}
+			}
+			if extra != nil {
+				c.Bad("no-other-skip@"+fname(f), posOf(extra), "whether a connection is sent the event depends on a condition (%s) that is none of: it is the originator, it has no session, it is not subscribed, the notification could not be built — subscribed connections can miss the event of a change", p.Position(extra.Cond.Pos()))
+			} else {
+				c.OK("no-other-skip@"+fname(f), posOf(g.site), "the send depends on nothing but originator / session / subscription / a notification that was built")
+			}
+		}
 		c.Check(okOrigin, "skip-originator@"+fname(f), posOf(w), "the write is dominated by conn != originator", "the connection that made the change is not excluded from the fan-out")
 		c.Check(okSession, "session-present@"+fname(f), posOf(w), "the write is dominated by a non-nil session of that connection", "a connection without session can be written to")
 		c.Check(okSub, "subscribed@"+fname(f), posOf(w), "the write is dominated by IsSubscribedTo(c) of that connection's session for the characteristic that changed",
